@@ -337,6 +337,17 @@ impl<'a> Properties<'a> {
     }
 }
 
+#[cfg(feature = "verif-hooks")]
+impl<'a> Properties<'a> {
+    /// Return the raw encoded block of an inbound property collection.
+    pub fn verif_encoded(&self) -> Option<&'a [u8]> {
+        match &self.inner {
+            PropertiesData::Encoded(block) => Some(block),
+            _ => None,
+        }
+    }
+}
+
 /// Iterator over decoded MQTT properties.
 struct PropertiesIter<'a> {
     inner: PropertiesIterInner<'a>,
